@@ -262,6 +262,8 @@ func fileYAML(f *ldFile, pathOf func(id int) string) string {
 			for _, c := range t.Cmds {
 				if c.Task != "" {
 					fmt.Fprintf(&b, "      - task: %s\n", q(c.Task))
+				} else if c.Sh == ldMatchSh {
+					fmt.Fprintf(&b, "      - %s\n", q(ldMatchCmd))
 				} else {
 					fmt.Fprintf(&b, "      - %s\n", q(fmt.Sprintf("echo c%d", c.Sh)))
 				}
@@ -354,6 +356,19 @@ func decodeAttrs(t *ast.Task) []int {
 	return out
 }
 
+// the command that prints the wildcard values of the call ({{.MATCH}}), unambiguously; in the
+// abstract tree it is the shell command number ldMatchSh
+const ldMatchSh = 9000
+const ldMatchPrefix = "echo c9000 "
+const ldMatchCmd = ldMatchPrefix + "{{range .MATCH}}<{{.}}>{{end}}"
+
+func decodeSh(cmd string) int {
+	if cmd == ldMatchCmd {
+		return ldMatchSh
+	}
+	return decodeNum(cmd, "echo c")
+}
+
 func decodeNum(s, prefix string) int {
 	if strings.HasPrefix(s, prefix) {
 		if n, err := strconv.Atoi(s[len(prefix):]); err == nil && n >= 0 {
@@ -423,7 +438,7 @@ func cmdsDump(cmds []*ast.Cmd) string {
 		if c.Task != "" {
 			out = append(out, hx(c.Task), "0")
 		} else {
-			out = append(out, "-", strconv.Itoa(decodeNum(c.Cmd, "echo c")))
+			out = append(out, "-", strconv.Itoa(decodeSh(c.Cmd)))
 		}
 	}
 	return strings.Join(out, " ")
@@ -510,7 +525,24 @@ func resolveOnce(root string, reqs []string) (res string) {
 					}
 				}
 			}
-			parts = append(parts, strings.TrimSpace(fmt.Sprintf("found %s %d %s", hx(t.Task), len(ws), hxs(ws))))
+			// what a command of the task sees as {{.MATCH}}: compile the call and read the rendered text
+			rendered := "-"
+			for _, cm := range t.Cmds {
+				if cm != nil && cm.Cmd == ldMatchCmd {
+					rendered = "not-rendered"
+					if ct, cerr := e.CompiledTask(call); cerr != nil {
+						rendered = "compile-error:" + hx(cerr.Error())
+					} else {
+						for _, cc := range ct.Cmds {
+							if cc != nil && strings.HasPrefix(cc.Cmd, ldMatchPrefix) {
+								rendered = hx(strings.TrimPrefix(cc.Cmd, ldMatchPrefix))
+							}
+						}
+					}
+					break
+				}
+			}
+			parts = append(parts, strings.TrimSpace(fmt.Sprintf("found %s %d %s", hx(t.Task), len(ws), hxs(ws)))+" R "+rendered)
 		case errors.As(err, &nf):
 			parts = append(parts, "notfound")
 		case errors.As(err, &cf):
@@ -787,7 +819,7 @@ func abstractFile(f *ldFile, tf *ast.Taskfile, byPath map[string]int) ldFile {
 			if c.Task != "" {
 				at.Cmds = append(at.Cmds, ldCmd{Task: c.Task})
 			} else {
-				at.Cmds = append(at.Cmds, ldCmd{Sh: decodeNum(c.Cmd, "echo c")})
+				at.Cmds = append(at.Cmds, ldCmd{Sh: decodeSh(c.Cmd)})
 			}
 		}
 		g.Tasks = append(g.Tasks, at)
@@ -990,6 +1022,13 @@ func (f *ldFile) noNormalise() bool {
 
 // ---------------------------------------------------------------- generator
 
+// task names with wildcards (domain loadresolve only): patterns that overlap with each other, with
+// plain names and with names under a namespace, so that WHICH pattern comes first in the merged
+// table (the parent file's before the included files') decides the answer
+var ldPatterns = []string{"x-*", "x-a*", "*-b", "t*", "*:t", "n1:*", "*-*", "*:x-*", "*"}
+
+var ldWild = false
+
 var (
 	ldTaskNames  = []string{"a", "b", "c", "default", "n1", "t", "u"}
 	ldNamespaces = []string{"n1", "n2", "n3", "a", "b"}
@@ -1056,6 +1095,20 @@ func (c *Ctx) genRef(own []string, rootTasks []string) string {
 // ':x' written in the root file is a reference to the root's x as well.
 func (c *Ctx) genTasks(rootTasks []string, isRoot bool) []ldTask {
 	names := c.pickSome(ldTaskNames, 4)
+	if ldWild && c.chance(70) {
+		seen := map[string]bool{}
+		for _, n := range names {
+			seen[n] = true
+		}
+		for _, p := range c.pickSome(ldPatterns[:len(ldPatterns)-1+c.Rng.Intn(2)], 3) {
+			if !seen[p] {
+				seen[p] = true
+				at := c.Rng.Intn(len(names) + 1)
+				names = append(names[:at:at], append([]string{p}, names[at:]...)...)
+				c.Hit("wild:pattern-task")
+			}
+		}
+	}
 	if isRoot {
 		rootTasks = names
 	}
@@ -1091,6 +1144,9 @@ func (c *Ctx) genTasks(rootTasks []string, isRoot bool) []ldTask {
 		}
 		if c.chance(30) {
 			t.Vars = c.genVars(2)
+		}
+		if strings.Contains(n, "*") {
+			t.Cmds = append(t.Cmds, ldCmd{Sh: ldMatchSh})
 		}
 		out = append(out, t)
 	}
@@ -1146,6 +1202,7 @@ type ldGenCfg struct {
 	keyPool      int  // variable names are drawn from K1..K<keyPool>
 	pInject      int  // percent of trees with an injected load error (scaled)
 	refsMonitor  bool // also evaluate the root-reference monitor (property C08 only)
+	wild         bool // wildcard task names (property C15 only)
 	pDup         int  // percent of the error-free trees that get one key used twice (property C08 only)
 }
 
@@ -1155,6 +1212,7 @@ var ldKeyPool = 5
 func (c *Ctx) genTree(cfg ldGenCfg) ldCase {
 	maxDepth := cfg.maxDepth
 	ldKeyPool = cfg.keyPool
+	ldWild = cfg.wild
 	n := 2 + c.Rng.Intn(5)
 	gf := make([]*ldGenFile, n)
 	usedBase := map[string]bool{}
@@ -1483,6 +1541,8 @@ func runLoadRep(c *Ctx) {
 		ldGenCfg{maxDepth: 2, pRootParent: 70, pExtraParent: 30, pTwice: 35, keyPool: 2, pInject: 8})
 }
 
+var ldStarWords = []string{"a", "b", "ab", "a-b", "x-a", "t", "x-a-b", "n1", "", "a:t"}
+
 // runLoadResolve (property C15): name resolution over merged tables — the include trees of
 // domain load, each asked for a sample of the names its namespaces, namespace aliases, task
 // aliases and default tasks make available (plus near misses).
@@ -1495,7 +1555,7 @@ func runLoadResolve(c *Ctx) {
 		return
 	}
 	n := c.Pick(220, 2500)
-	cfg := ldGenCfg{maxDepth: c.Pick(3, 4), pRootParent: 10, pExtraParent: 15, pTwice: 15, keyPool: 2, pInject: 0}
+	cfg := ldGenCfg{maxDepth: c.Pick(3, 4), pRootParent: 10, pExtraParent: 15, pTwice: 15, keyPool: 2, pInject: 0, wild: true}
 	for i := 0; i < n; i++ {
 		d := c.genTree(cfg)
 		d.Op = "resolve"
@@ -1505,6 +1565,19 @@ func runLoadResolve(c *Ctx) {
 		k := 10
 		for j := 0; j < k && len(cands) > 0; j++ {
 			r := cands[c.Rng.Intn(len(cands))]
+			if strings.Contains(r, "*") && c.chance(85) {
+				// a name the pattern spells: every star replaced by a short word that other patterns match too
+				var sb strings.Builder
+				for _, ch := range r {
+					if ch == '*' {
+						sb.WriteString(ldStarWords[c.Rng.Intn(len(ldStarWords))])
+					} else {
+						sb.WriteRune(ch)
+					}
+				}
+				r = sb.String()
+				c.Hit("request:instantiated-pattern")
+			}
 			switch c.Rng.Intn(8) {
 			case 0: // drop the first namespace segment
 				if ix := strings.Index(r, ":"); ix >= 0 {
@@ -1537,6 +1610,7 @@ func runLoadResolve(c *Ctx) {
 		if strings.Contains(il, "found") && nested > 0 {
 			c.Distinct(cl)
 		}
+		ldWildFeatures(c, &d, il)
 	}
 }
 
@@ -1611,4 +1685,63 @@ func runLoadWith(c *Ctx, n, loads int, cfg ldGenCfg) {
 		}
 		c.Emit(out[i].cl, out[i].il, d)
 	}
+}
+
+// ldWildFeatures counts what the wildcard requests exercised: a request that patterns of SEVERAL
+// files match (root and included, or included and flattened), answered by the root file's pattern;
+// a rendered {{.MATCH}} with two or more values.
+func ldWildFeatures(c *Ctx, d *ldCase, il string) {
+	parts := strings.Split(il, " | ")
+	if len(parts) != len(d.Reqs)+1 {
+		return
+	}
+	rootPats := map[string]bool{}
+	for _, f := range d.Files {
+		if f.ID == d.Root {
+			for _, t := range f.Tasks {
+				if strings.Contains(t.Name, "*") {
+					rootPats[t.Name] = true
+				}
+			}
+		}
+	}
+	for i, rq := range d.Reqs {
+		fs := strings.Fields(parts[i+1])
+		if len(fs) < 3 || fs[0] != "found" {
+			continue
+		}
+		nw, _ := strconv.Atoi(fs[2])
+		if nw == 0 {
+			continue
+		}
+		c.Hit("wild:resolved-through-pattern")
+		if nw >= 2 {
+			c.Hit("wild:two-or-more-values")
+		}
+		if fs[len(fs)-1] != "-" && fs[len(fs)-2] == "R" {
+			c.Hit("wild:rendered-MATCH-compared")
+		}
+		name := unhx(fs[1])
+		// how many tasks of the whole tree (under any namespace path) have a pattern matching the request?
+		if rootPats[name] {
+			c.Hit("wild:answered-by-root-file-pattern")
+		} else if strings.Contains(name, ":") {
+			c.Hit("wild:answered-by-included-pattern")
+		} else {
+			c.Hit("wild:answered-by-flattened-pattern")
+		}
+		_ = rq
+	}
+}
+
+func unhx(h string) string {
+	if h == "-" {
+		return ""
+	}
+	b := make([]byte, len(h)/2)
+	for i := range b {
+		v, _ := strconv.ParseUint(h[2*i:2*i+2], 16, 8)
+		b[i] = byte(v)
+	}
+	return string(b)
 }
